@@ -15,6 +15,22 @@ CHECKS = {
             "This visits every parent x child x grandchild combination of converters, which is where the acceptance defects live, and no example-based test can.",
             E1_NOTE),
     # id: (technique, level text, level note)
+    'C03': ("bounded-exhaustive converter x value enumeration; internal differential oracle between the two hand-mirrored passes of the real converters",
+            "For every converter obtainable from the extended grammar (all built-in converters, user conditions incl. raising and non-bool predicates, the three tagged layouts, "
+            "HasConverter classes, ValueOrList, Range, ndarray, dataclasses with raising hooks and init=False fields) and every value of the universe (plus a typed-value pool), "
+            "try_convert succeeds iff collect_errors returns None, convert never raises the internal RuntimeError, and every error tree is well formed. The 17 mirrored "
+            "fast/diagnostic pairs are each driven through every branch by the single-deviation neighbourhood.",
+            E1_NOTE),
+    'C04': ("bounded-exhaustive enumeration with an adversarial alphabet substituted at every position; outcome-class oracle; exhaustive builder and hook-exception tables",
+            "Every expression x every member with each adversarial atom / key substituted at each position (plus pools) is run through from_data, convert, Cls.from_data, "
+            "Cls.from_obj, from_json and from_yaml; anything other than a return or ConvertError is a violation, grouped by the innermost pane frame it passed. Every grammar "
+            "expression must build; every entry of an unsupported-type table (incl. dataclasses with an unsupported field, nested five ways) must raise TypeError / "
+            "UnsupportedAnnotation at build time; hooks raising 13 exception classes are placed in 9 contexts.",
+            E1_NOTE),
+    'C09': ("bounded-exhaustive enumeration with before/after deep snapshots (structure + container identity) on the real entry points; immutable-spelling differential oracle",
+            "Every cell runs from_data, convert, Cls.from_data, Cls(*args/**kw) and into_data(result) on fresh mutable containers (also defaultdict / inserting mappings) "
+            "and compares a deep snapshot before and after, for both verdicts; the same datum spelled with tuple / MappingProxyType must give the same verdict and value.",
+            E1_NOTE),
     'C20': ("bounded-exhaustive enumeration of all identifiers (<=3/4 words over a 3-letter alphabet) x styles on the real rename code, algebraic-law oracle",
             "Every snake_case identifier of up to 3 (quick) / 4 (thorough) words of 2-3 letters over {a,b,z} is pushed through all 5 styles and all 25 style pairs on the real code; canonical form, idempotence, inverse and composition laws are checked on every one, malformed shapes must raise ValueError, and the class-level rename path is exercised on generated classes. The space is finite and fully enumerated, which is the right level for a pure string function whose failure modes are word-boundary patterns that all occur within 3-4 short words.",
             "Alphabet {a,b,z}, words of 2-3 letters; digits / non-ASCII outside the alphabet. Oracle formulas are independent of pane's splitting code."),
